@@ -60,7 +60,167 @@ def expr_role(fn: FuncInfo, e: ast.AST) -> Optional[str]:
     return None
 
 
+class _LenUnknown(Exception):
+    pass
+
+
+def _bit_length_range(lo: int, hi: int) -> tuple[int, int]:
+    return max(1, lo.bit_length()), max(1, hi.bit_length())
+
+
+def rendered_length(eng: Engine, fn: FuncInfo, e: ast.AST, env: dict[str, tuple], n: int, depth: int = 0) -> tuple[int, int]:
+    """Length range (lo, hi) of the string `e` evaluates to, when the byte sequences in `env` have length n and their elements lie in 0..255.
+    env maps names to ("bytes",) | ("int", lo, hi) | ("byte",) ; attribute chains are looked up by their source text."""
+    def kind(x: ast.AST):
+        return env.get(norm(x))
+
+    def int_range(x: ast.AST) -> tuple[int, int]:
+        k = kind(x)
+        if k is not None and k[0] == "byte":
+            return 0, 255
+        if k is not None and k[0] == "int":
+            return k[1], k[2]
+        if isinstance(x, ast.Constant) and isinstance(x.value, int):
+            return x.value, x.value
+        if isinstance(x, ast.Call) and norm(x.func) == "len" and x.args and kind(x.args[0]) == ("bytes",):
+            return n, n
+        if isinstance(x, ast.Call) and norm(x.func) == "int.from_bytes" and x.args and kind(x.args[0]) == ("bytes",):
+            return 0, 256 ** n - 1
+        if isinstance(x, ast.BinOp) and isinstance(x.op, (ast.Mult, ast.Add, ast.Sub)):
+            (a, b), (c, d) = int_range(x.left), int_range(x.right)
+            if isinstance(x.op, ast.Mult):
+                vals = [a * c, a * d, b * c, b * d]
+            elif isinstance(x.op, ast.Add):
+                vals = [a + c, b + d]
+            else:
+                vals = [a - d, b - c]
+            return min(vals), max(vals)
+        raise _LenUnknown(f"integer `{short(x, 40)}`")
+
+    def spec_of(fs: Optional[ast.AST]) -> tuple[tuple[int, int], str]:
+        """(width range, type char) of a format spec given as JoinedStr / None"""
+        if fs is None:
+            return (0, 0), "d"
+        if not isinstance(fs, ast.JoinedStr):
+            raise _LenUnknown("format spec")
+        text = ""
+        width_expr = None
+        for v in fs.values:
+            if isinstance(v, ast.Constant):
+                text += str(v.value)
+            elif isinstance(v, ast.FormattedValue):
+                if width_expr is not None:
+                    raise _LenUnknown("two computed fields in a format spec")
+                width_expr = v.value
+                text += "{}"
+        import re as _re
+        m = _re.fullmatch(r"(?:(.)?[<>=^])?0?(\d+|\{\})?([bdxXo])?", text)
+        if not m:
+            raise _LenUnknown(f"format spec {text!r}")
+        w = m.group(2)
+        if w == "{}":
+            wr = int_range(width_expr)  # type: ignore[arg-type]
+        elif w:
+            wr = (int(w), int(w))
+        else:
+            wr = (0, 0)
+        return wr, (m.group(3) or "d")
+
+    if isinstance(e, ast.Constant) and isinstance(e.value, str):
+        return len(e.value), len(e.value)
+    if isinstance(e, ast.JoinedStr):
+        lo = hi = 0
+        for v in e.values:
+            if isinstance(v, ast.Constant):
+                lo += len(str(v.value))
+                hi += len(str(v.value))
+            else:
+                (wlo, whi), ty = spec_of(v.format_spec)
+                if ty != "b":
+                    raise _LenUnknown(f"format type {ty!r}")
+                a, b = int_range(v.value)
+                if a < 0:
+                    raise _LenUnknown("negative value")
+                nlo, nhi = _bit_length_range(a, b)
+                lo += max(wlo, nlo)
+                hi += max(whi, nhi)
+        return lo, hi
+    if isinstance(e, ast.Call) and isinstance(e.func, ast.Attribute) and e.func.attr == "join" and isinstance(e.func.value, ast.Constant) and e.func.value.value == "" and len(e.args) == 1:
+        g = e.args[0]
+        if isinstance(g, (ast.GeneratorExp, ast.ListComp)) and len(g.generators) == 1 and not g.generators[0].ifs and isinstance(g.generators[0].target, ast.Name):
+            it = g.generators[0].iter
+            if kind(it) != ("bytes",):
+                raise _LenUnknown(f"iteration over `{short(it, 40)}`")
+            sub = dict(env)
+            sub[g.generators[0].target.id] = ("byte",)
+            a, b = rendered_length(eng, fn, g.elt, sub, n, depth)
+            return n * a, n * b
+        raise _LenUnknown("join over something else than a plain comprehension")
+    if isinstance(e, ast.Call) and isinstance(e.func, ast.Attribute) and e.func.attr in ("zfill", "rjust") and e.args:
+        a, b = rendered_length(eng, fn, e.func.value, env, n, depth)
+        wl, wh = int_range(e.args[0])
+        return max(a, wl), max(b, wh)
+    if isinstance(e, ast.Subscript) and isinstance(e.value, ast.Call) and norm(e.value.func) == "bin" and norm(e.slice) == "2:":
+        a, b = int_range(e.value.args[0])
+        return _bit_length_range(a, b)
+    if isinstance(e, ast.BinOp) and isinstance(e.op, ast.Add):
+        a, b = rendered_length(eng, fn, e.left, env, n, depth)
+        c, d = rendered_length(eng, fn, e.right, env, n, depth)
+        return a + c, b + d
+    if isinstance(e, ast.Call) and isinstance(e.func, ast.Name) and depth < 3:
+        # a helper of the same module: evaluate what it returns with the parameter bound to the argument's kind
+        mod = eng.ix.modules[fn.module]
+        callee = mod.functions.get(e.func.id)
+        if callee is not None and len(e.args) == 1 and not e.keywords and kind(e.args[0]) is not None:
+            rets = [r for r in walk_local(callee.node) if isinstance(r, ast.Return) and r.value is not None]
+            ps = callee.params()
+            if len(rets) == 1 and len(ps) >= 1:
+                return rendered_length(eng, callee, rets[0].value, {ps[0]: kind(e.args[0])}, n, depth + 1)  # type: ignore[dict-item]
+    raise _LenUnknown(f"`{short(e, 50)}`")
+
+
+def bits_per_byte_rule(chk: Check, eng: Engine) -> None:
+    """R09-d.  The bit view of a byte payload has exactly eight characters per byte - for every length, the empty payload included:
+    that is what makes bits(a + b) == bits(a) + bits(b) and lets the byte and bit views of a tree agree.  The string expression of each
+    payload branch of TreeValue.to_bits is evaluated in a length domain (format widths, bit lengths of 0..255 and of int.from_bytes)."""
+    tv = eng.cls("fandango.language.tree_value", "TreeValue")
+    tb = eng.method(tv, "to_bits", inherited=False)
+    n_br = 0
+    for n in walk_local(tb.node):
+        if not (isinstance(n, ast.Assign) and len(n.targets) == 1 and isinstance(n.targets[0], ast.Name) and n.targets[0].id == "value"):
+            continue
+        if isinstance(n.value, ast.Constant):
+            continue
+        # the byte sequences of this branch: self._value (bytes branch) or the codec call on it (str branch)
+        env: dict[str, tuple] = {}
+        for c in ast.walk(n.value):
+            if isinstance(c, ast.Call) and call_name(c) in ("_str_to_bytes",):
+                env[norm(c)] = ("bytes",)
+        env["self._value"] = ("bytes",)
+        n_br += 1
+        try:
+            bad = None
+            for k in range(0, 7):
+                lo, hi = rendered_length(eng, tb, n.value, env, k)
+                if (lo, hi) != (8 * k, 8 * k):
+                    bad = (k, lo, hi)
+                    break
+        except _LenUnknown as ex:
+            raise AnalysisError(f"TreeValue.to_bits: the length of `{short(n.value, 60)}` cannot be derived ({ex})")
+        if bad is None:
+            chk.ok("R09-d", tb.fq, n.lineno, f"`{short(n.value, 70)}` renders exactly 8 characters per byte (payload lengths 0..6, element values 0..255)")
+        else:
+            k, lo, hi = bad
+            chk.bad("R09-d", eng.relfile(tb), n.lineno, tb.fq, f"`{short(n.value, 70)}` renders {lo if lo == hi else f'{lo}..{hi}'} character(s) for a payload of {k} byte(s), not {8 * k}",
+                    "the bit view is not the concatenation of the bit views of the parts (an empty field contributes a stray '0'): bits, bytes and text of a tree disagree",
+                    keyparts=f"bits-per-byte|n={k}")
+    if n_br < 2:
+        raise AnalysisError(f"TreeValue.to_bits: only {n_br} payload branch(es) found")
+
+
 def run(chk: Check, eng: Engine) -> None:
+    chk.rule("R09-d", "the bit view has exactly eight characters per payload byte, for every payload length including zero", floor=2)
+    bits_per_byte_rule(chk, eng)
     chk.rule("R09-a", "no codec value of one role (text->bytes / bytes->text) reaches a sink of the other role", floor=15)
     chk.rule("R09-b", "TreeValue payloads are written only by __init__/_reduce_trailing_bits, never mutated in place, and value-returning methods return new objects", floor=8)
     chk.rule("R09-c", "DerivationTree.value() is an in-order left fold from the empty value through append(), without caching", floor=4)
@@ -289,6 +449,8 @@ from ..mutants import M  # noqa: E402
 _TV = "src/fandango/language/tree_value.py"
 _T = "src/fandango/language/tree.py"
 MUTANTS = [
+    M("bits-by-whole-integer-format", _TV, "            value = \"\".join(f\"{byte_:08b}\" for byte_ in self._value)\n", "            value = f\"{int.from_bytes(self._value, byteorder='big'):0{8 * len(self._value)}b}\"\n", "R09-d"),
+    M("bits-unpadded", _TV, "            value = \"\".join(f\"{byte_:08b}\" for byte_ in self._value)\n", "            value = \"\".join(f\"{byte_:b}\" for byte_ in self._value)\n", "R09-d"),
     M("to-string-flush-with-b2s", _TV, "        self._reduce_trailing_bits(str_to_bytes_encoding=STRING_TO_BYTES_ENCODING)\n        if isinstance(self._value, str):\n            return self._value\n        if isinstance(self._value, bytes):\n            return _bytes_to_str",
       "        self._reduce_trailing_bits(str_to_bytes_encoding=bytes_to_str_encoding)\n        if isinstance(self._value, str):\n            return self._value\n        if isinstance(self._value, bytes):\n            return _bytes_to_str", "R09-a"),
     M("to-bits-encodes-latin1", _TV, "                for byte_ in _str_to_bytes(self._value, encoding=str_to_bytes_encoding)\n", "                for byte_ in _str_to_bytes(self._value, encoding=BYTES_TO_STRING_ENCODING)\n", "R09-a"),
@@ -302,6 +464,7 @@ MUTANTS = [
     M("value-cached-on-tree", _T, "            aggregate = aggregate.append(child.value())\n        return aggregate", "            aggregate = aggregate.append(child.value())\n        self._value_cache = aggregate\n        return aggregate", "R09-c"),
 ]
 TWINS = [
+    M("twin-bits-by-zfill", _TV, "            value = \"\".join(f\"{byte_:08b}\" for byte_ in self._value)\n", "            value = \"\".join(bin(byte_)[2:].zfill(8) for byte_ in self._value)\n", None),
     M("twin-kwarg-to-positional", _TV, "            return _bytes_to_str(self._value, encoding=bytes_to_str_encoding)\n        raise FandangoValueError(\n            f\"Invalid value type: {type(self._value)}, {self._trailing_bits}. This should not happen, please report this as a bug\"\n        )\n\n    def to_bytes(",
       "            return _bytes_to_str(self._value, bytes_to_str_encoding)\n        raise FandangoValueError(\n            f\"Invalid value type: {type(self._value)}, {self._trailing_bits}. This should not happen, please report this as a bug\"\n        )\n\n    def to_bytes(", None),
     M("twin-loop-var-rename", _T, "        for child in self._children:\n            aggregate = aggregate.append(child.value())", "        for kid in self._children:\n            aggregate = aggregate.append(kid.value())", None),
